@@ -21,6 +21,7 @@ import (
 	"os"
 	"sort"
 	"sync"
+	"sync/atomic"
 	"syscall"
 	"time"
 
@@ -40,6 +41,12 @@ type stream struct {
 	bytes []byte
 	desc  []string // per message
 }
+
+// the long-lived healthy connection's observation domain (per batch) and template id
+var healthyDomain uint32
+var hdead atomic.Bool
+
+const healthyTID = 999
 
 func smallTemplate(r *rand.Rand, n int) []regtable.Elem {
 	var small []regtable.Elem
@@ -108,6 +115,9 @@ func mkStream(r *rand.Rand, domain uint32, short bool, badAt int, badKind int) s
 				} else {
 					add(refipfix.BuildMessage(domain, seq, 1, tid+7, []byte{1, 2}), "bad:unknown-template")
 				}
+			case 6: // an undecodable data message for the template ANOTHER connection (the healthy one) works with:
+				// this connection is closed; the other one must not notice ("other connections are unaffected")
+				add(refipfix.BuildMessage(healthyDomain, seq, 1, healthyTID, append(refipfix.PU(4, uint64(seq)), 200)), "bad:truncated-record-for-the-other-connection's-template")
 			case 5: // header length beyond the bytes that follow (the collector must wait, deliver nothing)
 				m := refipfix.BuildMessage(domain, seq, 1, tid, []byte{9, 9, 9, 9})
 				binary.BigEndian.PutUint16(m[2:4], uint16(len(m)+20+r.IntN(2000)))
@@ -214,7 +224,7 @@ func main() {
 	addr := coll.Addr()
 
 	// healthy long-lived connection
-	healthyDomain := uint32(0xEE000000) | uint32(c.Batch)
+	healthyDomain = uint32(0xEE000000) | uint32(c.Batch)
 	var hsent int
 	var hmu sync.Mutex
 	hstop := make(chan struct{})
@@ -226,8 +236,8 @@ func main() {
 			return
 		}
 		defer conn.Close()
-		el := []regtable.Elem{lib.CustomElems[11]}
-		conn.Write(refipfix.BuildMessage(healthyDomain, 0, 1, 2, refipfix.EncodeTemplateRecord(999, gen.Fields(el))))
+		el := []regtable.Elem{lib.CustomElems[11], lib.CustomElems[8]} // a counter and a variable-length string
+		conn.Write(refipfix.BuildMessage(healthyDomain, 0, 1, 2, refipfix.EncodeTemplateRecord(healthyTID, gen.Fields(el))))
 		n := uint32(0)
 		for {
 			select {
@@ -236,7 +246,8 @@ func main() {
 			default:
 			}
 			n++
-			if _, err := conn.Write(refipfix.BuildMessage(healthyDomain, n, 1, 999, refipfix.PU(4, uint64(n)))); err != nil {
+			if _, err := conn.Write(refipfix.BuildMessage(healthyDomain, n, 1, healthyTID, append(refipfix.PU(4, uint64(n)), 1, 'h'))); err != nil {
+				hdead.Store(true) // nobody but the collector can have closed this connection
 				return
 			}
 			hmu.Lock()
@@ -322,7 +333,7 @@ func main() {
 		} else {
 			badAt, badKind := -1, 0
 			if r.IntN(2) == 0 {
-				badAt, badKind = r.IntN(6), r.IntN(6)
+				badAt, badKind = r.IntN(6), r.IntN(7)
 			}
 			s = mkStream(r, domain, r.IntN(3) == 0, badAt, badKind)
 			switch r.IntN(6) {
@@ -366,6 +377,10 @@ func main() {
 			}
 		}
 		runCase(c, coll, k, r, addr, domain, s, cuts, exp, desc)
+		if hdead.Load() {
+			c.Violation(k, "other-connection-closed", "the healthy connection, which only ever sent valid messages, was closed by the collector while this case's stream was being handled", map[string]any{"case": desc, "stream": fmt.Sprintf("%x", s.bytes[:min(len(s.bytes), 1200)])})
+			break
+		}
 		if inside {
 			c.Nontrivial(hx.H64(s.bytes[16:], fmt.Sprint(cuts)))
 		}
@@ -460,7 +475,12 @@ func runCase(c *hx.Ctx, coll *lib.Coll, k int, r *rand.Rand, addr string, domain
 	}
 	// the handler must be gone before "nothing further" can be judged: wait until this
 	// case's connection is no longer counted (the healthy connection stays: count 1)
-	if !coll.WaitConns(1, 15*time.Second) {
+	for i := 0; i < 30 && !hdead.Load() && !coll.WaitConns(1, 500*time.Millisecond); i++ {
+	}
+	if hdead.Load() {
+		return // reported by the caller
+	}
+	if !coll.WaitConns(1, time.Millisecond) {
 		c.Inconclusive(fmt.Sprintf("case %d: connection count did not return to 1 (healthy connection only)", k))
 		return
 	}
